@@ -14,7 +14,7 @@
 (***************************************************************************)
 EXTENDS Integers, Sequences, FiniteSets, TLC
 
-CONSTANTS Layout,     \* "cartesian" (f, re, im) | "polar" (f, mod, phase) | "five" (all columns) | "instrument"
+CONSTANTS Layout,     \* "cartesian" (f, re, im) | "polar" (f, mod, phase) | "five" (all columns) | "five-marked" (all columns, first alias, every sign marker) | "instrument"
           OptMode,    \* "single": one file-option deviation at a time | "product"
           Reduce      \* "none" | "nosuffix" (no unit suffixes) | "few" (two aliases per role, no suffixes)
 
@@ -106,11 +106,11 @@ SplitTotal ==       \* every sequence is partitioned or refused, never an index 
 Instruments == {"mpt", "i2b", "p00", "dfr", "dta", "z"}
 Roles == CASE Layout \in {"cartesian", "instrument"} -> {"frequency", "real", "imaginary"}
            [] Layout = "polar" -> {"frequency", "magnitude", "phase"}
-           [] Layout = "five" -> {"frequency", "real", "imaginary", "magnitude", "phase"}
+           [] Layout \in {"five", "five-marked"} -> {"frequency", "real", "imaginary", "magnitude", "phase"}
 Perms(S) == {p \in [1..Cardinality(S) -> S] : \A i, j \in 1..Cardinality(S) : i # j => p[i] # p[j]}
 Markers(k) == IF k \in {"real", "imaginary", "phase"} THEN {"", Minus, UMinus} ELSE {""}
 Suffixes == {"", " (ohm)", "/hz"}
-AliasChoices(k) == IF Layout = "five" \/ Reduce = "few" THEN 1..2 ELSE 1..Len(Aliases(k))
+AliasChoices(k) == IF Layout = "five-marked" THEN 1..1 ELSE IF Layout = "five" \/ Reduce = "few" THEN 1..2 ELSE 1..Len(Aliases(k))
 
 Cell(c) == c.marker \o Aliases(c.role)[c.alias] \o c.suffix
 
@@ -128,7 +128,7 @@ FileOpts ==
 CellChoices(k) ==
     {[role |-> k, alias |-> a, marker |-> m, suffix |-> sf] :
         a \in AliasChoices(k), m \in (IF Layout = "five" THEN {""} ELSE Markers(k)),
-        sf \in (IF Layout = "five" \/ Reduce # "none" THEN {""} ELSE Suffixes)}
+        sf \in (IF Layout \in {"five", "five-marked"} \/ Reduce # "none" THEN {""} ELSE Suffixes)}
 RECURSIVE Headers(_, _)
 Headers(p, i) ==      \* all header rows for the column order p, from column i on
     IF i > Len(p) THEN {<<>>} ELSE {<<c>> \o rest : c \in CellChoices(p[i]), rest \in Headers(p, i + 1)}
